@@ -193,7 +193,7 @@ def generate(rnd, tier):
             sampler = {"sampling_method": "dynamic", "stratified_sampling": rnd.choice(["by_group", "by_group", "by_label", None])}
             metric = {"callable": rnd.choice(GROUP_CALLABLES), "kwargs": {"threshold": {"shape": [], "data": [0.0]}}}
         if sampler.get("callable") == "counting" and not sampler.get("mixed") and "name" in metric and not is_group and rnd.random() < 0.7:
-            sampler["recycle"] = True
+            sampler[rnd.choice(["recycle", "recycle", "flip"])] = True
         nb = rnd.randint(1, 12 if big else 60)
         if metric.get("name") == "eer":
             nb = min(nb, 12)
@@ -334,6 +334,7 @@ class RecSampler:
         self.recycle = bool(spec.get("__recycle")) if isinstance(spec, dict) else False
         self.work = None
         self.limit, self.runaway = None, False
+        self.flip = bool(spec.get("__flip")) if isinstance(spec, dict) else False
 
     def __call__(self, source, **kw):
         k = len(self.inputs)
@@ -352,7 +353,10 @@ class RecSampler:
         elif self.mixed and k % 3 == 1:
             out = source  # a legal sampler may hand back the source itself for some replicates
         else:  # counting: the j-th call returns a distinct, legal, deterministic resample
-            out = counting_sample(source, k)
+            out = counting_sample(source, k, flip=self.flip)
+            if self.flip and not self.recycle:
+                self.outputs.append(counting_sample(source, k, flip=True))  # snapshot of what is returned, flags included
+                return out
             if self.recycle:
                 if self.work is None:
                     self.work = counting_sample(source, k)
@@ -364,9 +368,16 @@ class RecSampler:
         return out
 
 
-def counting_sample(source, k):
+def counting_sample(source, k, flip=False):
     L = lib()
     pos, neg = np.asarray(source.pos), np.asarray(source.neg)
+    if flip and not isinstance(source, L.GroupScores):
+        # a sampler whose resamples use the other decision convention (negated "distance" representation)
+        other = "neg" if source.score_class.value == "pos" else "pos"
+        ip = (np.arange(len(pos)) * (k + 2) + k) % max(len(pos), 1)
+        ineg = (np.arange(len(neg)) * (k + 3) + 2 * k) % max(len(neg), 1)
+        return L.Scores(-pos[ip], -neg[ineg], nb_easy_pos=source.nb_easy_pos, nb_easy_neg=source.nb_easy_neg,
+                        score_class=other, equal_class=source.equal_class)
     ip = (np.arange(len(pos)) * (k + 2) + k) % max(len(pos), 1)
     ineg = (np.arange(len(neg)) * (k + 3) + 2 * k) % max(len(neg), 1)
     if isinstance(source, L.GroupScores):
@@ -478,7 +489,8 @@ def execute(scn, ctx):
             """Fresh callbacks + the call to perform, bound to `target` (the shared source or a twin)."""
             inner_cfg = M.build_config(dict(sspec.get("inner", {}), nb_samples=1)) if s_kind == "recording" else None
             sampler = RecSampler(s_kind, inner_cfg, dict(spec, __mixed_identity=bool(sspec.get("mixed")),
-                                                         __recycle=bool(sspec.get("recycle")) and named and not is_group), fl) if s_kind != "builtin" else None
+                                                         __recycle=bool(sspec.get("recycle")) and named and not is_group,
+                                                         __flip=bool(sspec.get("flip")) and named and not is_group), fl) if s_kind != "builtin" else None
             config = M.build_config(dict(sspec if s_kind == "builtin" else {}, **cfg), sampler=sampler) if s_kind == "builtin" else \
                 M.build_config(dict(cfg, sampling_method={"callable": s_kind}, stratified_sampling=sspec.get("outer_strat")), sampler=sampler)
             metric = mname if named else RecMetric(base_metric(mname, L), fl, target, ctx)
